@@ -108,7 +108,11 @@ func cmdReexec(args []string) {
 	w := NewWorld(job.Cfg.Genesis)
 	var n *Node
 	if job.From == 0 {
-		n, err = NewNode("n2", NewSimDB(), nil)
+		if job.Cfg.ProdBoot {
+			n, err = NewProdNode("n2", NewSimDB())
+		} else {
+			n, err = NewNode("n2", NewSimDB(), nil)
+		}
 		if err == nil {
 			err = n.InitChain(w)
 		}
@@ -122,7 +126,11 @@ func cmdReexec(args []string) {
 		var db *SimDB
 		db, err = loadDB(job.DBDump)
 		if err == nil {
-			n, err = NewNode("n2", db, nil)
+			if job.Cfg.ProdBoot {
+				n, err = NewProdNode("n2", db)
+			} else {
+				n, err = NewNode("n2", db, nil)
+			}
 		}
 	}
 	if err != nil {
